@@ -348,7 +348,7 @@ def project(line, raw):
     for grp, nc, svcs, g, rec in _walk(line, raw):
         resp = [packet_tok(x, pk) for x, pk in parsed_sent(rec) if pk is None or (pk["flags"] & 0x8000)]
         outs.append("&".join(resp) if resp else "none")
-    return " | ".join(outs) if outs else "noqueries"
+    return "answered=%d/%d %s" % (sum(1 for o in outs if o != "none"), len(outs), " | ".join(outs))
 
 
 def model_input(line, raw):
